@@ -5,6 +5,8 @@ package federation
 import (
 	"sort"
 
+	"github.com/hashicorp/serf/serf"
+
 	"github.com/DrmagicE/gmqtt"
 	"github.com/DrmagicE/gmqtt/persistence/subscription"
 )
@@ -94,4 +96,20 @@ func (f *Federation) VerifSessionNext(node string) (next uint64, ok bool) {
 		return 0, false
 	}
 	return s.nextEventID, true
+}
+
+// VerifMemberFlap feeds this node's membership handlers a member-failed event followed by a member-join event for
+// the given peer, as serf delivers them after a failure detection the peer refutes: only this node sees them, the
+// peer keeps whatever it holds for this node. It reports whether the peer was known.
+func (f *Federation) VerifMemberFlap(node string) bool {
+	f.memberMu.Lock()
+	p := f.peers[node]
+	f.memberMu.Unlock()
+	if p == nil {
+		return false
+	}
+	m := p.member
+	f.nodeFail(serf.MemberEvent{Type: serf.EventMemberFailed, Members: []serf.Member{m}})
+	f.nodeJoin(serf.MemberEvent{Type: serf.EventMemberJoin, Members: []serf.Member{m}})
+	return true
 }
